@@ -64,6 +64,17 @@ func cycleDoc(r *gen.Rand) any {
 			return map[string]any{"$merge:" + k: map[string]any{"x": 1}, k: true}
 		}
 	}
+	if r.Chance(0.2) {
+		// interpolation cycles in which a template mentions the cycle more than once
+		switch r.Intn(3) {
+		case 0:
+			return map[string]any{k: `$"{` + k + `}-{` + k + `}"`}
+		case 1:
+			return map[string]any{k: `$"{` + k2 + `}/{` + k2 + `}"`, k2: `$"{` + k + `}"`, "z": 1}
+		default:
+			return map[string]any{k: `$"{` + k2 + `}{` + k2 + `}{` + k2 + `}"`, k2: `$"<{` + k + `}>"`}
+		}
+	}
 	switch r.Intn(10 + r.Intn(2)*r.Intn(2)) {
 	case 0:
 		return map[string]any{k: `$"{` + k + `}"`}
@@ -124,6 +135,10 @@ func genC08(r *gen.Rand) *C08Case {
 	var names []string
 	var first any
 	name := base
+	anchorAt := -1
+	if r.Chance(0.06) {
+		anchorAt = r.Intn(nLayers) // one layer is hand-written YAML with anchors and aliases
+	}
 	for l := 0; l < nLayers; l++ {
 		if l > 0 {
 			name += "." + r.Pick("b", "c", "prod", "x")
@@ -149,6 +164,29 @@ func genC08(r *gen.Rand) *C08Case {
 		}
 		ext := pickExt(r, docs, true)
 		p := filepath.Join(c08Dir, name+"."+ext)
+		if l == anchorAt {
+			// YAML anchors, aliases and merge keys, well-formed and
+			// self-referential (an anchor that contains its own alias)
+			k := gen.PickAny(r, gen.DefaultKeys)
+			raw := gen.PickAny(r, []string{
+				k + ": &x {b: 1, c: [1, 2]}\nother: *x\n",
+				"base: &b {p: 1, q: {r: 2}}\n" + k + ":\n  <<: *b\n  p: 3\n",
+				"defs: [&a {x: 1}, &b {y: 2}]\n" + k + ":\n  <<: [*a, *b]\n  z: 3\n",
+				k + ": &x [1, *x]\n",
+				k + ": &x {b: *x}\n",
+				k + ": &x\n  b: 1\n  self: *x\n",
+				"l: &l\n- a\n- *l\n",
+				k + ": &x {b: &y {c: *x}}\nz: *y\n",
+				k + ":\n  $decode: yaml\n  $value: \"&x [*x]\"\n",
+				k + ": &x {<<: *x, a: 1}\n",
+			})
+			ext = "yaml"
+			p = filepath.Join(c08Dir, name+".yaml")
+			w.Files = append(w.Files, procsim.File{Path: p, Raw: &raw})
+			names = append(names, name+".yaml")
+			c.Faults = append(c.Faults, "input:yaml-anchors")
+			continue
+		}
 		w.Files = append(w.Files, procsim.File{Path: p, Docs: treeDocs(docs...)})
 		names = append(names, name+"."+ext)
 	}
@@ -653,22 +691,12 @@ func c08Candidates(c *C08Case) []*C08Case {
 	return out
 }
 
-// selfContainingRefs counts $merge/$replace references whose target path is a
-// prefix of their own position (the reference sits inside what it refers to).
-func selfContainingRefs(doc any) int {
-	count := 0
-	var walk func(v any, pos []string)
-	isPrefix := func(target, pos []string) bool {
-		if len(target) > len(pos) {
-			return false
-		}
-		for i := range target {
-			if target[i] != pos[i] {
-				return false
-			}
-		}
-		return true
-	}
+// docRef is one $merge/$replace reference: where it sits and what it names
+// (both as key paths from the document root; list indices are ignored).
+type docRef struct{ host, target []string }
+
+func collectRefs(doc any) []docRef {
+	var out []docRef
 	refKeys := func(v any) ([]string, bool) {
 		switch x := v.(type) {
 		case string:
@@ -684,7 +712,7 @@ func selfContainingRefs(doc any) int {
 			}
 			return strings.Split(x, "."), true
 		case []any:
-			var l []string
+			l := []string{}
 			for _, e := range x {
 				s, ok := e.(string)
 				if !ok {
@@ -696,13 +724,14 @@ func selfContainingRefs(doc any) int {
 		}
 		return nil, false
 	}
+	var walk func(v any, pos []string)
 	walk = func(v any, pos []string) {
 		switch x := v.(type) {
 		case map[string]any:
 			for _, dk := range []string{"$merge", "$replace"} {
 				if rv, ok := x[dk]; ok {
-					if t, ok := refKeys(rv); ok && isPrefix(t, pos) {
-						count++
+					if t, ok := refKeys(rv); ok {
+						out = append(out, docRef{append([]string{}, pos...), t})
 					}
 				}
 			}
@@ -711,21 +740,76 @@ func selfContainingRefs(doc any) int {
 			}
 		case []any:
 			for _, e := range x {
-				// list entries have no key; a reference in a list entry sits at the list's position
-				walk(e, pos)
+				walk(e, pos) // a reference in a list entry sits at the list's position
 			}
 		case string:
 			for _, pre := range []string{"$merge:", "$replace:"} {
 				if strings.HasPrefix(x, pre) {
-					if t, ok := refKeys(strings.TrimPrefix(x, pre)); ok && isPrefix(t, pos) {
-						count++
+					if t, ok := refKeys(strings.TrimPrefix(x, pre)); ok {
+						out = append(out, docRef{append([]string{}, pos...), t})
 					}
 				}
 			}
 		}
 	}
 	walk(doc, nil)
-	return count
+	return out
+}
+
+func keyPrefix(a, b []string) bool {
+	if len(a) > len(b) {
+		return false
+	}
+	for i := range a {
+		if a[i] != b[i] {
+			return false
+		}
+	}
+	return true
+}
+
+// branchingRefCycle reports the size of the largest set of references that
+// all reach one another: reference r reaches r' when r' sits inside what r
+// names (expanding r copies r' along). One self-containing reference is an
+// ordinary cycle (the depth guard reports it); two or more that reach each
+// other double the subtree at every expansion — the listed known finding.
+func branchingRefCycle(refs []docRef) int {
+	n := len(refs)
+	if n > 64 {
+		n = 64
+	}
+	reach := make([][]bool, n)
+	for i := 0; i < n; i++ {
+		reach[i] = make([]bool, n)
+		for j := 0; j < n; j++ {
+			reach[i][j] = keyPrefix(refs[i].target, refs[j].host)
+		}
+	}
+	for k := 0; k < n; k++ {
+		for i := 0; i < n; i++ {
+			for j := 0; j < n; j++ {
+				if reach[i][k] && reach[k][j] {
+					reach[i][j] = true
+				}
+			}
+		}
+	}
+	best := 0
+	for i := 0; i < n; i++ {
+		if !reach[i][i] {
+			continue
+		}
+		size := 0
+		for j := 0; j < n; j++ {
+			if reach[i][j] && reach[j][i] {
+				size++
+			}
+		}
+		if size > best {
+			best = size
+		}
+	}
+	return best
 }
 
 // parseLoose reads raw layer bytes (YAML, which includes JSON) for the
@@ -796,32 +880,26 @@ func c08Known(c *C08Case, o *c08Obs) string {
 	}
 	// layers are merged into one document before evaluation: the references
 	// may come from different files of the chain
-	total := 0
+	var refs []docRef
 	for _, f := range c.World.Files {
 		for _, d := range f.Docs {
-			total += selfContainingRefs(d.V)
+			refs = append(refs, collectRefs(d.V)...)
 		}
 		if f.Raw != nil {
-			best := 0
 			for _, d := range parseLoose(*f.Raw) {
-				if n := selfContainingRefs(d); n > best {
-					best = n
-				}
+				refs = append(refs, collectRefs(d)...)
 			}
-			total += best
 		}
 	}
-	if total >= 2 {
-		return "c08-branching-self-reference"
+	if c.StdinDoc != nil && c.Inv.Stdin != "" {
+		refs = append(refs, collectRefs(c.StdinDoc.V)...)
 	}
 	if c.StdinDoc == nil && c.Inv.Stdin != "" {
 		for _, d := range parseLoose(c.Inv.Stdin) {
-			if selfContainingRefs(d) >= 2 {
-				return "c08-branching-self-reference"
-			}
+			refs = append(refs, collectRefs(d)...)
 		}
 	}
-	if c.StdinDoc != nil && c.Inv.Stdin != "" && selfContainingRefs(c.StdinDoc.V) >= 2 {
+	if branchingRefCycle(refs) >= 2 {
 		return "c08-branching-self-reference"
 	}
 	return ""
